@@ -1435,4 +1435,32 @@ theorem visH_cleanup_sub (g : Graph) (hid : List Nat) (n : Nat) (p : Nat × List
   rw [hn] at h
   exact hcl p h
 
+/-! ## a small instance for the non-vacuity examples of `Props/C01.lean`, `Props/C05.lean`
+
+Two workers; per worker a stateless test `a` (nodes 0, 1) and a dependant `b` (nodes 2, 3) that sets the removable state
+`vm1/b` (`unset_mode=fi`); node 4 is the shared root. -/
+
+def exGraph : Graph :=
+  { workers := [{ id := "net1", swarm := "localhost" }, { id := "net2", swarm := "localhost" }],
+    nodes := [
+      { cls := 0, owner := some 0, name := "all.a.vms.vm1.nets.localhost.net1", pfx := "1a1", objs := ["vm1"],
+        setup := [(4, ["vm1"])], cleanup := [(2, ["vm1"])] },
+      { cls := 0, owner := some 1, name := "all.a.vms.vm1.nets.localhost.net2", pfx := "1a1", objs := ["vm1"],
+        setup := [(4, ["vm1"])], cleanup := [(3, ["vm1"])] },
+      { cls := 1, owner := some 0, name := "all.b.vms.vm1.nets.localhost.net1", pfx := "2a1", objs := ["vm1"],
+        sets := [("vm1", "b")], unsetMode := [("vm1", "fi")], setup := [(0, ["vm1"])] },
+      { cls := 1, owner := some 1, name := "all.b.vms.vm1.nets.localhost.net2", pfx := "2a1", objs := ["vm1"],
+        sets := [("vm1", "b")], unsetMode := [("vm1", "fi")], setup := [(1, ["vm1"])] },
+      { cls := 2, owner := none, name := "all.internal.stateless.noop", pfx := "1", flat := true, sharedRoot := true,
+        cleanup := [(0, ["vm1"]), (1, ["vm1"])] }],
+    root := 4 }
+
+def exNoOut : Outcome := { status := none }
+def exPass : Outcome := { status := some "PASS", dur := 1 }
+
+/-- net1 went to its copy of `a` and started it -/
+def exS1 : State := runSched exGraph 100 (initState exGraph 3 [] []) [(0, exNoOut)]
+/-- `a` passed; net1 went on to `b`, was sent back to traverse (not rerun) and drop `a`, and started `b` -/
+def exS2 : State := runSched exGraph 100 (initState exGraph 3 [] []) [(0, exNoOut), (0, exPass)]
+
 end I2N.Trav
